@@ -68,11 +68,11 @@ POSITION_FUNCS = [
     ("Position_dec", "constexpr Position &operator--() noexcept", "void Position_dec(Position *self)",
      ["R1.ret_this"], False),
     ("Position_plus", "constexpr Position operator+(size_t t_distance) const noexcept",
-     "Position Position_plus(const Position *self, size_t t_distance)", ["R1.copy_this", "R3.inc_ret"], False),
+     "Position Position_plus(const Position *self, size_t t_distance)", ["R1.copy_this"], False),
     ("Position_pluseq", "constexpr Position &operator+=(size_t t_distance) noexcept",
      "void Position_pluseq(Position *self, size_t t_distance)", ["R1.pluseq", "R1.ret_this"], False),
     ("Position_minus", "constexpr Position operator-(size_t t_distance) const noexcept",
-     "Position Position_minus(const Position *self, size_t t_distance)", ["R1.copy_this", "R3.dec_ret"], False),
+     "Position Position_minus(const Position *self, size_t t_distance)", ["R1.copy_this"], False),
     ("Position_minuseq", "constexpr Position &operator-=(size_t t_distance) noexcept",
      "void Position_minuseq(Position *self, size_t t_distance)", ["R1.minuseq", "R1.ret_this"], False),
     ("Position_eq", "constexpr bool operator==(const Position &t_rhs) const noexcept",
@@ -139,6 +139,20 @@ def position_targets(kb):
     T.append(Target("Position_minuseq", "h_Position_minuseq", replace=["Position_minus"]))
     for f in ("eq", "ne", "has_more", "remaining", "deref"):
         T.append(Target("Position_" + f, "h_Position_" + f))
+    if kb.prop == "C20":
+        # undo lemmas (DESIGN 7/C20): backing up over what was just consumed restores the coordinates - the exact
+        # sense in which one remembered column suffices.  Real bodies inlined, fixed distances, loops fully unwound.
+        c = chai2c.contracts_for(load_contracts("K1_position.contracts"), "lemma_undo2", kb.prop)
+        kb.emit_stub("void lemma_undo2(Position *p)", c.fn, "lemma_undo2", body=" Position_pluseq(p, 2); Position_minuseq(p, 2); ")
+        c = chai2c.contracts_for(load_contracts("K1_position.contracts"), "lemma_undo1", kb.prop)
+        kb.emit_stub("void lemma_undo1(Position *p)", c.fn, "lemma_undo1", body=" Position_inc(p); Position_dec(p); ")
+        for nm in ("lemma_undo2", "lemma_undo1"):
+            kb.add('void h_%s(void) { Position *p; %s(p); VERIF_CANARY("%s returns normally"); }' % (nm, nm, nm))
+            t = Target(nm, "h_" + nm, loops=False, unwind=3,
+                       bounded_note="fixed distances 1 and 2: the loops of operator+ / operator- are fully unwound (unwinding assertions on) - complete")
+            t.complete = True
+            T.append(t)
+            kb.functions.append(nm)
 
 
 
